@@ -32,7 +32,7 @@ def run_cli(argv, cwd, env=None, pre=None, post=None, call=None):
     """Fork; in the child run tally.cli.main() with sys.argv = ['tally'] + argv. Returns exit/stdout/stderr.
     `pre` is an optional callable run in the child before main (used to install fault injectors)."""
     H.import_tally()
-    tmpd = tempfile.mkdtemp(prefix="tallyproc-", dir="/dev/shm" if os.path.isdir("/dev/shm") else None)
+    tmpd = tempfile.mkdtemp(prefix="tallyproc-", dir=H.TMP)
     out_path, err_path = os.path.join(tmpd, "out"), os.path.join(tmpd, "err")
     sys.stdout.flush()
     sys.stderr.flush()
